@@ -168,6 +168,14 @@ class Context:
         if name == 'sqrt':
             self._ax(z3.Implies(x >= 0, z3.And(r >= 0, r * r == x)), "sqrt(x)>=0 & sqrt(x)^2=x for x>=0")
             self.side.append(("domain:sqrt", x >= 0, len(self.pc)))
+        elif name.startswith('root') and name[4:].isdigit():
+            n = int(name[4:])
+            pw = r
+            for _ in range(n - 1):
+                pw = pw * r
+            self._ax(z3.Implies(x >= 0, z3.And(r >= 0, pw == x)), "root_n(x)>=0 & root_n(x)^n=x for x>=0")
+            self._ax(z3.Implies(x > 0, r > 0), "root_n(x)>0 for x>0")
+            self.side.append(("domain:" + name, x >= 0, len(self.pc)))
         elif name == 'exp':
             self._ax(r > 0, "exp(x)>0")
         elif name == 'pow10':
@@ -240,19 +248,44 @@ class Context:
     def trig_rules(self):
         """ground trigonometric relations among the cos/sin applications created so far, for the ring
         normaliser: sin^2(x) = 1 - cos^2(x); cos(-x) = cos(x); sin(-x) = -sin(x)"""
+        eqs = getattr(self, 'ring_equalities', [])
+        if eqs and not getattr(self, '_in_subst_rules', False):
+            # equalities handed to the ring normaliser rewrite the registered applications as well
+            def sub(t):
+                for (x, y) in eqs:
+                    t = z3.substitute(t, (x, y))
+                return t
+            saved = self.apps
+            self.apps = {nm: [(tuple(sub(x) for x in a), sub(r)) for a, r in lst] for nm, lst in saved.items()}
+            self._in_subst_rules = True
+            try:
+                return self.trig_rules()
+            finally:
+                self.apps = saved
+                self._in_subst_rules = False
         cos_apps = {a[0].get_id(): (a[0], r) for a, r in self.apps.get('cos', [])}
         sin_apps = {a[0].get_id(): (a[0], r) for a, r in self.apps.get('sin', [])}
         sqrt_apps = self.apps.get('sqrt', [])
-        if not cos_apps and not sin_apps and not sqrt_apps:
+        root_apps = [(int(nm[4:]), a, r) for nm in self.apps if nm.startswith('root') and nm[4:].isdigit() for a, r in self.apps[nm]]
+        if not cos_apps and not sin_apps and not sqrt_apps and not root_apps:
             return None
         pairs, rename = {}, {}
+        for n, a, r in root_apps:
+            try:
+                from . import poly
+                num, den = poly.to_rat(a[0])
+                pairs[r.get_id()] = (n, num, den)           # root_n(X)^n = X
+            except Exception:
+                pass
         if sqrt_apps:
             from . import poly
             for a, r in sqrt_apps:
                 try:
-                    pairs[r.get_id()] = poly.to_poly(a[0]) or {(): 0}     # sqrt(X)^2 = X (X >= 0 is a side obligation)
-                    if pairs[r.get_id()] == {(): 0}:
-                        pairs[r.get_id()] = {}
+                    num, den = poly.to_rat(a[0])
+                    if den == poly.ONE:
+                        pairs[r.get_id()] = num             # sqrt(X)^2 = X (X >= 0 is a side obligation)
+                    else:
+                        pairs[r.get_id()] = (2, num, den)   # sqrt(N/D)^2 = N/D (D != 0 is a side obligation of the division)
                 except Exception:
                     pass
         args = {}
@@ -333,23 +366,119 @@ class Context:
         goal = lift(goal)
         if not isinstance(goal, SBool):
             raise TypeError("prove needs a boolean goal")
-        if _ring_valid(goal.t, self.trig_rules()):
+        gt = goal.t
+        for (a, b) in getattr(self, 'ring_equalities', []):
+            gt = z3.substitute(gt, (a, b))          # equalities proved under the path condition (add_ring_equality)
+        if _ring_valid(gt, self.trig_rules()):
             # the goal is a conjunction of polynomial identities that hold by the commutative-ring
             # axioms alone (exact sum-of-monomials normal form); no solver call needed
             STATS["ring_proofs"] = STATS.get("ring_proofs", 0) + 1
             return "proved", None
+        if _ring_shaped(gt):
+            # an identity the normaliser could not validate: it is either false almost everywhere (then evaluation at a few random
+            # rational points exposes it at once) or true only thanks to the path condition (then the solver has to show it)
+            try:
+                from . import numeval
+                nm = numeval.search(self._all_constraints(extra_assumptions), goal.t, trials=40, seed=len(self.pc))
+                if nm is not None:
+                    STATS["numeric_refutations"] = STATS.get("numeric_refutations", 0) + 1
+                    return "refuted", nm
+            except Exception:
+                pass
         r, s = self.check_sat(list(extra_assumptions) + [z3.Not(goal.t)], timeout_ms)
         if r == z3.unsat:
             return "proved", None
         if r == z3.sat:
             m = s.model()
             return "refuted", m
+        m = self._guided_refutation(goal, extra_assumptions)
+        if m is not None:
+            return "refuted", m
         return "unknown", s
+
+    def _all_constraints(self, extra=()):
+        """everything a model has to satisfy: path condition, stated facts and ground axiom instances"""
+        return list(self.pc) + (list(self.axioms) if self.axioms_on else []) + list(extra)
+
+    def _guided_refutation(self, goal, extra_assumptions=(), trials=6, per_trial_ms=4000):
+        """The nonlinear solver gave up on `path condition and not goal`.  A polynomial NON-identity is false almost everywhere, so
+        pin (most of) the free variables to random small rationals and ask again: the query becomes (nearly) ground.  Any model
+        found satisfies the complete path condition and falsifies the goal - a genuine counterexample; failing to find one
+        proves nothing (the verdict stays `unknown`)."""
+        import random
+        from z3 import z3util
+        try:
+            from . import numeval
+            nm = numeval.search(self._all_constraints(extra_assumptions), goal.t, trials=200, seed=len(self.pc))
+            if nm is not None:
+                STATS["numeric_refutations"] = STATS.get("numeric_refutations", 0) + 1
+                return nm
+        except Exception:
+            import os
+            if os.environ.get("PYVC_DEBUG"):
+                import traceback
+                traceback.print_exc()
+        try:
+            terms = [goal.t] + list(self.pc) + list(extra_assumptions)
+            vs = {}
+            for t in terms:
+                for v in z3util.get_vars(t):
+                    vs[v.get_id()] = v
+            vs = [v for v in vs.values() if z3.is_real(v) or z3.is_int(v)]
+            if not vs:
+                return None
+            rnd = random.Random(len(vs) * 7919 + len(self.pc))
+            squares = [z3.RealVal(x) for x in ("1", "4", "1/4", "9/4", "9", "1/9", "16", "25/4")]
+            plain = [z3.RealVal(x) for x in ("1", "2", "-1", "1/2", "3", "-2", "3/2", "-1/2", "5", "-3", "2/3", "7/4")]
+            for trial in range(trials):
+                frac = (1.0, 1.0, 0.9, 0.9, 0.75, 0.6)[min(trial, 5)]
+                pins = []
+                for v in vs:
+                    if rnd.random() > frac:
+                        continue
+                    if z3.is_int(v):
+                        pins.append(v == rnd.choice([0, 1, 2, 3, -1, 5]))
+                    else:
+                        pins.append(v == rnd.choice(squares if trial % 2 == 0 else plain))
+                r, s = self.check_sat(list(extra_assumptions) + [z3.Not(goal.t)] + pins, per_trial_ms)
+                if r == z3.sat:
+                    STATS["guided_refutations"] = STATS.get("guided_refutations", 0) + 1
+                    return s.model()
+        except Exception:
+            return None
+        return None
+
+    def add_ring_equality(self, a, b, timeout_ms=5000):
+        """if the path condition entails a == b, let the ring normaliser rewrite a to b (in the order given).  Returns True iff added."""
+        a, b = lift(a), lift(b)
+        for (x, y) in getattr(self, 'ring_equalities', []):
+            a, b = SNum(z3.substitute(a.t, (x, y)), a.kind), SNum(z3.substitute(b.t, (x, y)), b.kind)
+        if z3.eq(a.t, b.t):
+            return True
+        if self.prove(a == b, timeout_ms=timeout_ms)[0] != "proved":
+            return False
+        if not hasattr(self, 'ring_equalities'):
+            self.ring_equalities = []
+        self.ring_equalities.append((a.t, b.t))
+        return True
 
     def smt2(self, goal):
         s = self._solver(1000)
         s.add(z3.Not(lift(goal).t))
         return s.to_smt2()
+
+
+def _ring_shaped(t):
+    """conjunction / disjunction of arithmetic equalities"""
+    try:
+        if z3.is_and(t) or z3.is_or(t):
+            return all(_ring_shaped(c) for c in t.children())
+        if z3.is_eq(t):
+            a, b = t.children()
+            return z3.is_arith(a) and z3.is_arith(b)
+    except Exception:
+        pass
+    return False
 
 
 def _ring_valid(t, trig=None):
@@ -359,6 +488,9 @@ def _ring_valid(t, trig=None):
             return True
         if z3.is_and(t):
             return all(_ring_valid(c, trig) for c in t.children())
+        if z3.is_or(t):
+            # a product == 0 is often presented as a disjunction of factor == 0: one identically valid disjunct suffices
+            return any(_ring_valid(c, trig) for c in t.children())
         if z3.is_eq(t):
             a, b = t.children()
             if z3.is_arith(a) and z3.is_arith(b):
